@@ -97,6 +97,12 @@ def probes():
         add({"op": "constraint", "c": ("distance", r, 1, None, "min")})
         add({"op": "constraint", "c": ("interrupted", r, [(1, 3)])})
         add({"op": "constraint", "c": ("periodicallyUnavailable", r, [(1, 3)], 7, 0, 0, None)})
+    # the periodic classes: every list of one or two intervals around the period (inside it, touching its end, beyond it,
+    # in both orders) — whether a list is well formed must not depend on which interval comes first or is the largest
+    pool = [(0, 2), (1, 2), (4, 6), (0, 7), (2, 8), (5, 7)]
+    for cls in ("periodicallyInterrupted", "periodicallyUnavailable"):
+        for ivs in [[a] for a in pool] + [[a, b] for a in pool for b in pool if a != b]:
+            add({"op": "constraint", "c": (cls, "W1", ivs, 6, 0, 0, None)})
     for off in (-1, 0, 1):
         add({"op": "constraint", "c": ("precedence", "A", "B", off, "lax")})
     add({"op": "constraint", "c": ("startAt", "A", 3), "name": "dup"})
